@@ -7,6 +7,8 @@ package interp
 import (
 	"time"
 	"encoding/json"
+	"reflect"
+	"sort"
 	"fmt"
 	"go/token"
 	"go/types"
@@ -455,7 +457,35 @@ func init() {
 			isInt := ok && types.Identical(st.Elem(), types.Typ[types.Int])
 			isStr := ok && types.Identical(st.Elem(), types.Typ[types.String])
 			if !isInt && !isStr {
-				panic(inconclusive{"encoding/json.Unmarshal target " + tgt.t.String()})
+				// any other target built from structs, pointers, slices, string-keyed maps and basic
+				// types without custom unmarshalers: decode natively into interface{} and assign with
+				// encoding/json's rules (tags, case-insensitive names, null, merge into existing maps)
+				raw := a[0].([]value)
+				b := make([]byte, len(raw))
+				for i := range raw {
+					b[i] = raw[i].(uint8)
+				}
+				var j interface{}
+				dec := json.NewDecoder(strings.NewReader(string(b)))
+				dec.UseNumber()
+				if err := dec.Decode(&j); err != nil {
+					// report the error json.Unmarshal itself would give
+					var dummy interface{}
+					return nativeErr(fr, json.Unmarshal(b, &dummy))
+				}
+				var dummy interface{}
+				if err := json.Unmarshal(b, &dummy); err != nil { // trailing data etc.
+					return nativeErr(fr, err)
+				}
+				cell := tgt.v.(*value)
+				if cell == nil {
+					return errorValue(fr, "json: Unmarshal(nil "+tgt.t.String()+")")
+				}
+				nv := jsonAssign(pt.Elem(), *cell, j)
+				used("encoding/json.Unmarshal into " + pt.Elem().String() + " (native decode of concrete text, assigned by encoding/json's rules)")
+				logCell(cell)
+				*cell = nv
+				return iface{}
 			}
 			used("encoding/json.Unmarshal into *[]int / *[]string (native, concrete text)")
 			raw := a[0].([]value)
@@ -1491,4 +1521,196 @@ func runeToBytesAny(r value) []value {
 		return strBytes(string(c))
 	}
 	return runeToBytes(r)
+}
+
+
+// jsonAssign returns cur (a value of type t) after encoding/json has unmarshalled j into it.
+// Unsupported shapes (custom unmarshalers, interface targets, type mismatches, embedded fields) end
+// the path as INCONCLUSIVE.
+func jsonAssign(t types.Type, cur value, j interface{}) value {
+	if n, ok := t.(*types.Named); ok {
+		for i := 0; i < n.NumMethods(); i++ {
+			if m := n.Method(i).Name(); m == "UnmarshalJSON" || m == "UnmarshalText" {
+				panic(inconclusive{"encoding/json.Unmarshal: custom unmarshaler of " + t.String()})
+			}
+		}
+	}
+	bad := func() value {
+		panic(inconclusive{fmt.Sprintf("encoding/json.Unmarshal: %T into %s", j, t.String())})
+	}
+	switch u := t.Underlying().(type) {
+	case *types.Interface:
+		if u.NumMethods() != 0 {
+			return bad()
+		}
+		return jsonBox(j)
+	case *types.Pointer:
+		if j == nil {
+			return (*value)(nil)
+		}
+		p, _ := cur.(*value)
+		if p == nil {
+			z := zero(u.Elem())
+			p = &z
+		}
+		nv := jsonAssign(u.Elem(), *p, j)
+		logCell(p)
+		*p = nv
+		return p
+	case *types.Struct:
+		if j == nil {
+			return cur
+		}
+		obj, ok := j.(map[string]interface{})
+		if !ok {
+			return bad()
+		}
+		s := append(structure(nil), cur.(structure)...)
+		keys := make([]string, 0, len(obj))
+		for k := range obj {
+			keys = append(keys, k)
+		}
+		sort.Strings(keys)
+		for _, k := range keys {
+			idx := -1
+			for pass := 0; pass < 2 && idx < 0; pass++ {
+				for i := 0; i < u.NumFields(); i++ {
+					f := u.Field(i)
+					if f.Embedded() {
+						panic(inconclusive{"encoding/json.Unmarshal: embedded field in " + t.String()})
+					}
+					if !f.Exported() {
+						continue
+					}
+					name := f.Name()
+					tag := reflect.StructTag(u.Tag(i)).Get("json")
+					if tag == "-" {
+						continue
+					}
+					if c := strings.Split(tag, ",")[0]; c != "" {
+						name = c
+					}
+					if (pass == 0 && name == k) || (pass == 1 && strings.EqualFold(name, k)) {
+						idx = i
+						break
+					}
+				}
+			}
+			if idx >= 0 {
+				s[idx] = jsonAssign(u.Field(idx).Type(), s[idx], obj[k])
+			}
+		}
+		return s
+	case *types.Slice:
+		if j == nil {
+			return []value(nil)
+		}
+		arr, ok := j.([]interface{})
+		if !ok {
+			return bad()
+		}
+		out := make([]value, len(arr))
+		for i := range arr {
+			out[i] = jsonAssign(u.Elem(), zero(u.Elem()), arr[i])
+		}
+		return out
+	case *types.Map:
+		if j == nil {
+			return (*omap)(nil)
+		}
+		obj, ok := j.(map[string]interface{})
+		kb, isBasic := u.Key().Underlying().(*types.Basic)
+		if !ok || !isBasic || kb.Kind() != types.String {
+			return bad()
+		}
+		m, _ := cur.(*omap)
+		if m == nil {
+			m = makeMap(u.Key(), 0).(*omap)
+		}
+		keys := make([]string, 0, len(obj))
+		for k := range obj {
+			keys = append(keys, k)
+		}
+		sort.Strings(keys)
+		for _, k := range keys {
+			m.insert(k, jsonAssign(u.Elem(), zero(u.Elem()), obj[k]))
+		}
+		return m
+	case *types.Basic:
+		if j == nil {
+			return cur
+		}
+		switch {
+		case u.Kind() == types.String:
+			if s, ok := j.(string); ok {
+				return s
+			}
+		case u.Kind() == types.Bool:
+			if b, ok := j.(bool); ok {
+				return b
+			}
+		case u.Info()&types.IsInteger != 0:
+			if n, ok := j.(json.Number); ok {
+				if i, err := strconv.ParseInt(string(n), 10, 64); err == nil {
+					switch u.Kind() {
+					case types.Int:
+						return int(i)
+					case types.Int64:
+						return i
+					case types.Int32:
+						if int64(int32(i)) == i {
+							return int32(i)
+						}
+					}
+				}
+			}
+		case u.Kind() == types.Float64:
+			if n, ok := j.(json.Number); ok {
+				if f, err := n.Float64(); err == nil {
+					return f
+				}
+			}
+		}
+		return bad()
+	}
+	return bad()
+}
+
+
+var jsonAnyType = types.NewInterfaceType(nil, nil).Complete()
+
+// jsonBox is what encoding/json stores into an interface{} target (numbers as float64).
+func jsonBox(j interface{}) value {
+	switch x := j.(type) {
+	case nil:
+		return iface{}
+	case string:
+		return iface{t: types.Typ[types.String], v: x}
+	case bool:
+		return iface{t: types.Typ[types.Bool], v: x}
+	case json.Number:
+		f, err := x.Float64()
+		if err != nil {
+			panic(inconclusive{"encoding/json.Unmarshal: number " + string(x)})
+		}
+		return iface{t: types.Typ[types.Float64], v: f}
+	case []interface{}:
+		out := make([]value, len(x))
+		for i := range x {
+			out[i] = jsonBox(x[i])
+		}
+		return iface{t: types.NewSlice(jsonAnyType), v: out}
+	case map[string]interface{}:
+		m := makeMap(types.Typ[types.String], 0).(*omap)
+		keys := make([]string, 0, len(x))
+		for k := range x {
+			keys = append(keys, k)
+		}
+		sort.Strings(keys)
+		for _, k := range keys {
+			m.insert(k, jsonBox(x[k]))
+		}
+		return iface{t: types.NewMap(types.Typ[types.String], jsonAnyType), v: m}
+	}
+	panic(inconclusive{fmt.Sprintf("encoding/json.Unmarshal: %T into interface{}", j)})
 }
